@@ -122,6 +122,23 @@ def generate(rng, tier):
         fv, iv = held(v)
         out = printed(iv, src)
         add(two_lines(lit(rng, v, src), out, kind="literal", value=bits(fv), nt=BASES[src][2], out=out))
+    # the deterministic part, continued: every fractional boundary value, and the odd integers of [2^52, 2^53) (where
+    # x + 0.5 is not representable: rounding must not go through it), written in every base and converted
+    for i, x in enumerate(fracs):
+        tgt = ["hex", "octal", "binary"][i % 3]
+        iv = round_half_away(x)
+        out = printed(iv, tgt)
+        add(two_lines("%s to %s" % (fmt_dec(x), WORDS[tgt][0]), out, kind="round", value=bits(float(iv)), nt=BASES[tgt][2], out=out))
+    for i, v in enumerate([2 ** 52 + 1, 2 ** 52 + 3, 2 ** 53 - 1, 2 ** 53 - 3, 3 * 2 ** 51 + 1, 2 ** 52 + 2 ** 26 + 1,
+                           2 ** 53 - 2 ** 20 - 1, 2 ** 52 + 12345]):
+        fv, iv = held(v)
+        for j, (src, tgt) in enumerate([("decimal", "hex"), ("hex", "decimal"), ("hex", "binary"), ("octal", "hex")]):
+            if (i + j) % 2 and tier == "quick":
+                continue
+            out = printed(iv, tgt)
+            text = "%s to %s" % (lit(rng, v, src), WORDS[tgt][0])
+            add(two_lines(text, out, kind="convert", value=bits(fv), nt=BASES[tgt][2], out=out) if out else
+                exec_case(text, "en", kind="convert", value=bits(fv), nt=BASES[tgt][2], out=None))
     # hex digit strings that contain something looking like another based literal (0b1, 0B0, 0b10 ...): the whole
     # literal is ONE hex number (the three based regexes must be tried in an order that lets the hex literal win)
     for hx in ["10B1", "a0b0", "0b0", "10b11", "F0B1F", "200B0", "7e0b1", "0B", "B0B", "1b0b1"]:
